@@ -510,6 +510,74 @@ func txmSimultaneous(seed int64, rounds int) string {
 	return ""
 }
 
+// txmAllBuckets: the manager keeps its transactions in 256 buckets by the first byte of the txid.  Several connections
+// poll for retries at the same time for a while (the node manager's periodic RequestTxs and a node's own poll can
+// overlap); afterwards one transaction per bucket is announced by two peers, the request to the first one times out,
+// and the second announcer's poll must offer every one of them (TxManager.tla: Requestable), whatever its bucket.
+func txmAllBuckets(seed int64) string {
+	w := newTxmWorld()
+	pollers := []uuid.UUID{w.node("p1"), w.node("p2"), w.node("p3"), w.node("p4")}
+	stop := make(chan struct{})
+	var wg sync.WaitGroup
+	for k := 0; k < 12; k++ {
+		wg.Add(1)
+		go func(k int) {
+			defer wg.Done()
+			for {
+				select {
+				case <-stop:
+					return
+				default:
+				}
+				w.m.GetTxRequests(w.ctx, pollers[k%len(pollers)], 50)
+			}
+		}(k)
+	}
+	time.Sleep(60 * time.Millisecond)
+	close(stop)
+	wg.Wait()
+	a, b := w.node("n1"), w.node("n2")
+	ids := map[byte]bitcoin.Hash32{}
+	for i := 0; len(ids) < 256 && i < 200000; i++ {
+		tx := wire.NewMsgTx(1)
+		tx.LockTime = uint32(seed%1000)*1000000 + uint32(i)
+		h := *tx.TxHash()
+		if _, ok := ids[h[0]]; !ok {
+			ids[h[0]] = h
+		}
+	}
+	if len(ids) != 256 {
+		return "harness: could not build one txid per bucket"
+	}
+	for _, h := range ids {
+		if first, _ := w.m.AddTxID(w.ctx, a, h); !first {
+			return "harness: a fresh txid was not new to the manager"
+		}
+		w.m.AddTxID(w.ctx, b, h)
+	}
+	w.m.VerifAgeRequests(2 * w.timeout)
+	got, err := w.m.GetTxRequests(w.ctx, b, 100000)
+	if err != nil {
+		return "harness: poll failed: " + err.Error()
+	}
+	have := map[bitcoin.Hash32]bool{}
+	for _, h := range got {
+		have[h] = true
+	}
+	var missing []int
+	for first, h := range ids {
+		if !have[h] {
+			missing = append(missing, int(first))
+		}
+	}
+	w.finish()
+	if len(missing) > 0 {
+		sort.Ints(missing)
+		return fmt.Sprintf("after the request timed out the second announcer's poll does not offer %d of 256 undelivered transactions (txid first bytes %v) - concurrent polls ran before", len(missing), missing)
+	}
+	return ""
+}
+
 func txmcMain(args []string) int {
 	fs := flag.NewFlagSet("txmc", flag.ExitOnError)
 	seed := fs.Int64("seed", 1, "seed")
@@ -532,6 +600,11 @@ func txmcMain(args []string) int {
 		rounds := 400 * *backlog
 		if m := txmSimultaneous(*seed, rounds); m != "" {
 			problems[m]++
+		}
+		for i := 0; i < 3; i++ {
+			if m := txmAllBuckets(*seed*31 + int64(i)); m != "" {
+				problems[m]++
+			}
 		}
 		json.NewEncoder(os.Stdout).Encode(map[string]interface{}{"scenarios": *backlog, "simultaneous_rounds": rounds, "problems": problems})
 		return 0
